@@ -3,6 +3,7 @@
 package c13
 
 import (
+	"bytes"
 	"errors"
 	"fmt"
 	"io"
@@ -442,10 +443,113 @@ func Child(r *ev.Run, args []string) {
 	}
 }
 
+
+// chunkSink accepts at most max bytes per call and reports that count with a nil error (a
+// legal if unusual writer that always makes progress); failAt > 0 makes call number failAt
+// return (0, error).
+type chunkSink struct {
+	max    int
+	got    []byte
+	calls  int
+	failAt int
+	syncs  int
+}
+
+func (c *chunkSink) Write(p []byte) (int, error) {
+	c.calls++
+	if c.failAt > 0 && c.calls == c.failAt {
+		return 0, errors.New("chunk sink failure")
+	}
+	n := len(p)
+	if n > c.max {
+		n = c.max
+	}
+	c.got = append(c.got, p[:n]...)
+	return n, nil
+}
+func (c *chunkSink) Sync() error { c.syncs++; return nil }
+
+// bufferedOverPartialSink drives BufferedWriteSyncer over sinks that write short: whatever
+// the sink does, each Write must return (len(p), nil) or a non-nil error - never a short
+// count with a nil error - and bytes acknowledged while no error was ever returned must
+// all have reached the sink after Sync.
+func bufferedOverPartialSink(r *ev.Run) {
+	n := r.N(600, 20000)
+	for i := 0; i < n; i++ {
+		id := fmt.Sprintf("c13/buffered-partial/%d", i)
+		if !r.Want(id) {
+			continue
+		}
+		g := rng.For(r.Seed, "c13/bufpart", i)
+		size := rng.Pick(g, []int{8, 16, 64, 300})
+		cs := &chunkSink{max: rng.Pick(g, []int{1, 3, size - 1, size, size + 1, 4 * size, 1 << 20})}
+		if g.P(1, 4) {
+			cs.failAt = g.Range(1, 6)
+		}
+		b := &zapcore.BufferedWriteSyncer{WS: cs, Size: size, FlushInterval: time.Hour}
+		var acked []byte
+		sawErr := false
+		var trace []string
+		nops := g.Range(2, 12)
+		for k := 0; k < nops; k++ {
+			if g.P(1, 5) {
+				err := b.Sync()
+				trace = append(trace, fmt.Sprintf("Sync -> %v", err))
+				if err != nil {
+					sawErr = true
+				} else if !sawErr && !bytes.Equal(cs.got, acked) {
+					r.Violate(ev.Violation{Case: id, Class: "buffered-partial-lost", Msg: fmt.Sprintf("BufferedWriteSyncer(Size=%d) over a sink accepting %d bytes per call: every Write returned (len(p), nil) and Sync returned nil, but the sink received %d of the %d acknowledged bytes", size, cs.max, len(cs.got), len(acked)), Witness: trace})
+					break
+				}
+				continue
+			}
+			ln := rng.Pick(g, []int{0, 1, size - 1, size, size + 1, 2*size + 3, 5 * size})
+			p := make([]byte, ln)
+			for j := range p {
+				p[j] = byte('a' + (len(acked)+j)%26)
+			}
+			var wn int
+			var err error
+			pn := ev.Guard(func() { wn, err = b.Write(p) })
+			trace = append(trace, fmt.Sprintf("Write(%d) -> (%d, %v)", ln, wn, err))
+			r.SetAdd("buffered_partial_classes", fmt.Sprintf("size%d/max%s/len%s", size, rel(cs.max, size), rel(ln, size)))
+			if pn != "" {
+				r.Violate(ev.Violation{Case: id, Class: "writer-panic", Msg: "BufferedWriteSyncer.Write panicked: " + pn, Witness: trace})
+				break
+			}
+			if err != nil {
+				sawErr = true
+				continue
+			}
+			if wn != len(p) {
+				r.Violate(ev.Violation{Case: id, Class: "writer-count:BufferedWriteSyncer-over-partial-sink", Msg: fmt.Sprintf("BufferedWriteSyncer(Size=%d) over a sink accepting %d bytes per call: Write(%d bytes) returned (%d, nil): a count below len(p) without an error", size, cs.max, ln, wn), Witness: trace})
+				break
+			}
+			acked = append(acked, p...)
+		}
+		_ = b.Stop()
+		r.Eval(1)
+		r.Distinct(fmt.Sprintf("bufpart|%d", i))
+	}
+}
+
+func rel(a, size int) string {
+	switch {
+	case a == 0:
+		return "=0"
+	case a < size:
+		return "<size"
+	case a == size:
+		return "=size"
+	}
+	return ">size"
+}
+
 // Run is the C13 monitor.
 func Run(r *ev.Run) {
-	r.Rule = "writers: every zap-provided writer x payload table (empty, whitespace-only, trailing newlines, 1 MiB, random); multi-syncer: every outcome vector over {full,short,zero}x{nil,error} for k sinks enumerated, on Write and Sync; wrappers: AddSync/Lock relay table; Lock exclusion: concurrent Write/Sync in a -race child with an unsynchronised in-flight counter; distinct = distinct (writer,payload) / vectors / runs"
+	r.Rule = "writers: every zap-provided writer x payload table (empty, whitespace-only, trailing newlines, 1 MiB, random); BufferedWriteSyncer over sinks that accept only part of each write (nil error) or fail once, with write lengths around and above Size; multi-syncer: every outcome vector over {full,short,zero}x{nil,error} for k sinks enumerated, on Write and Sync; wrappers: AddSync/Lock relay table; Lock exclusion: concurrent Write/Sync in a -race child with an unsynchronised in-flight counter; distinct = distinct (writer,payload) / vectors / runs"
 	writers(r)
+	bufferedOverPartialSink(r)
 	multi(r)
 	wrappers(r)
 	if r.Only == "" {
